@@ -533,6 +533,42 @@ impl Ran {
     }
 }
 
+/// Index-consistency oracle through hook H6: the real inverted index (internal ids mapped to
+/// external, tombstoned postings dropped) must equal the index rebuilt from the live census by the
+/// definition of the five lookup families. Ties `C11_index_consistent` to the implementation.
+fn index_oracle(b: &HnswBackend) -> Option<String> {
+    use kyrodb_engine::hnsw_backend::{verif_ordered_f64_key, VerifMetadataIndexDump};
+    let got = b.verif_metadata_index_dump();
+    let cen = census(b);
+    let mut want = VerifMetadataIndexDump::default();
+    let mut kv: BTreeMap<(String, String), Vec<u64>> = BTreeMap::new();
+    let mut num: BTreeMap<(String, u64), Vec<u64>> = BTreeMap::new();
+    let mut numdocs: BTreeMap<String, Vec<u64>> = BTreeMap::new();
+    for (id, meta) in &cen {
+        want.alive.push(*id);
+        for (k, v) in meta {
+            kv.entry((k.clone(), v.clone())).or_default().push(*id);
+            if let Ok(x) = v.parse::<f64>() {
+                numdocs.entry(k.clone()).or_default().push(*id);
+                if !x.is_nan() {
+                    num.entry((k.clone(), verif_ordered_f64_key(x))).or_default().push(*id);
+                }
+            }
+        }
+    }
+    want.alive.sort_unstable();
+    for ((k, v), mut ids) in kv { ids.sort_unstable(); want.by_key_value.push((k.clone(), v.clone(), ids.clone())); want.by_key_lex.push((k, v, ids)); }
+    for ((k, x), mut ids) in num { ids.sort_unstable(); want.by_key_numeric.push((k, x, ids)); }
+    for (k, mut ids) in numdocs { ids.sort_unstable(); want.numeric_docs_by_key.push((k, ids)); }
+    want.by_key_value.sort(); want.by_key_lex.sort(); want.by_key_numeric.sort(); want.numeric_docs_by_key.sort();
+    if got == want { return None }
+    let which = if got.alive != want.alive { "alive" } else if got.by_key_value != want.by_key_value { "by_key_value" } else if got.by_key_lex != want.by_key_lex { "by_key_lex" } else if got.by_key_numeric != want.by_key_numeric { "by_key_numeric" } else { "numeric_docs_by_key" };
+    let short = |x: String| x.chars().take(300).collect::<String>();
+    Some(format!("inverted index differs from the index rebuilt from the live documents in `{}`: got {} want {}", which,
+        short(format!("{:?}", match which { "alive" => format!("{:?}", got.alive), "by_key_value" => format!("{:?}", got.by_key_value), "by_key_lex" => format!("{:?}", got.by_key_lex), "by_key_numeric" => format!("{:?}", got.by_key_numeric), _ => format!("{:?}", got.numeric_docs_by_key) })),
+        short(format!("{:?}", match which { "alive" => format!("{:?}", want.alive), "by_key_value" => format!("{:?}", want.by_key_value), "by_key_lex" => format!("{:?}", want.by_key_lex), "by_key_numeric" => format!("{:?}", want.by_key_numeric), _ => format!("{:?}", want.numeric_docs_by_key) }))))
+}
+
 fn run_history(c: &Case, s: &Strs, dirs: &mut Dirs, h: &mut Hist) -> Ran {
     const DIM: usize = 2;
     let dir = if c.persistent { Some(dirs.next()) } else { None };
@@ -639,6 +675,14 @@ fn run_history(c: &Case, s: &Strs, dirs: &mut Dirs, h: &mut Hist) -> Ran {
                 h.inc("recover");
                 outs.push(Out::Unit);
             }
+        }
+        if let Some(why) = index_oracle(backend.as_ref().unwrap()) {
+            if !bdf_fails.iter().any(|f: &BdfFail| f.why.contains("inverted index differs")) {
+                bdf_fails.push(BdfFail { op_index: i, why: format!("after op {}: {}", i, why), ids_index: vec![], ids_scan: vec![] });
+            }
+            h.inc("index_dump_mismatch");
+        } else {
+            h.inc("index_dump_ok");
         }
     }
     Ran { backend, outs, bdf_fails, dir }
@@ -885,6 +929,60 @@ fn gen_history(r: &mut Rng, s: &Strs) -> Case {
         ops.push(op);
     }
     Case { cap, persistent, ops }
+}
+
+/// Directed histories for value-CLASS transitions of one key: every document gets a value of one
+/// class (finite number, NaN spelling, infinity, signed zero, plain string, empty) and is then
+/// updated (merge or replace, sometimes twice) to a value of ANOTHER class, so that stale postings
+/// of every lookup family (exact, lexicographic, numeric, numeric-docs marker) would surface under
+/// the range / exact atoms enumerated afterwards and under the index-dump oracle.
+fn gen_transition_history(r: &mut Rng, s: &Strs, round: usize) -> Case {
+    let class_of = |i: S| -> u8 {
+        match s.v[i].parse::<f64>() {
+            Ok(x) if x.is_nan() => 1,
+            Ok(x) if x.is_infinite() => 2,
+            Ok(x) if x == 0.0 => 3,
+            Ok(_) => 0,
+            Err(_) if s.v[i].is_empty() => 5,
+            Err(_) => 4,
+        }
+    };
+    let mut by_class: Vec<Vec<S>> = vec![vec![]; 6];
+    for &i in &s.corpus {
+        if s.v[i].len() < 64 { by_class[class_of(i) as usize].push(i) }
+    }
+    let classes: Vec<usize> = (0..6).filter(|c| !by_class[*c].is_empty()).collect();
+    let k0 = s.keys[r.below(2) as usize];
+    let k1 = s.keys[1 - (if k0 == s.keys[0] { 0 } else { 1 })];
+    let persistent = r.chance(1, 3);
+    let mut ops = vec![];
+    // every ordered (old class, new class) pair is covered systematically across the histories of a run
+    let n_docs = 9u64;
+    let npairs = classes.len() * classes.len();
+    let pair_of = |d: u64| -> (usize, usize) {
+        let p = (round * n_docs as usize + (d as usize - 1)) % npairs;
+        (classes[p / classes.len()], classes[p % classes.len()])
+    };
+    for d in 1..=n_docs {
+        let c_old = pair_of(d).0;
+        let v_old = *r.pick(&by_class[c_old]);
+        let mut raw: Raw = vec![(k0, v_old)];
+        if r.chance(1, 2) { raw.push((k1, *r.pick(&s.corpus))) }
+        ops.push(Op::Insert(d, raw));
+    }
+    for d in 1..=n_docs {
+        let rounds = if r.chance(1, 4) { 2 } else { 1 };
+        for rd in 0..rounds {
+            let c_new = if rd == 0 { pair_of(d).1 } else { *r.pick(&classes) };
+            let v_new = *r.pick(&by_class[c_new]);
+            let merge = r.chance(1, 2);
+            let raw: Raw = if !merge && r.chance(1, 4) { vec![(k1, v_new)] } else { vec![(k0, v_new)] };
+            ops.push(Op::Update(d, raw, merge));
+        }
+        if r.chance(1, 8) { ops.push(Op::Delete(d)) }
+    }
+    if persistent && r.chance(1, 2) { ops.push(Op::Recover) }
+    Case { cap: 64, persistent, ops }
 }
 
 /// random tree reaching exactly depth `d` (atoms have depth 1), fan-out 0..3
@@ -1272,7 +1370,7 @@ fn main() {
         }
         for k in 0..n {
             let mut r = rng.fork(k as u64);
-            let case = gen_history(&mut r, &strs);
+            let case = if k % 3 == 1 { gen_transition_history(&mut r, &strs, k / 3) } else { gen_history(&mut r, &strs) };
             specs.push(Spec { case, only: None, origin: format!("seeded:{}", k) });
         }
     }
